@@ -9,6 +9,7 @@ partial def loop (inp : IO.FS.Stream) (out : IO.FS.Stream) : IO Unit := do
   match Driver.dispatch ws with
   | some r => out.putStrLn r
   | none => out.putStrLn "bad-op"
+  out.flush      -- one answer per line, delivered at once: lets a harness keep a driver process open (C14)
   loop inp out
 
 def main : IO Unit := do
